@@ -54,7 +54,8 @@ Record Inv (s : st) : Prop := {
   J7 : forall t p m, refs (T s t) > 0 -> p > 0 -> nth_error (msgs s) p = Some m ->
          (forall m', In m' (firstn p (msgs s)) -> ~ hb m' (clk (T s t))) ->
          refs (T s t) + 1 <= val m;
-  J8 : forall t, started (T s t) = false -> refs (T s t) = 0 /\ mustfree (T s t) = false /\ excl (T s t) = false
+  J8 : forall t, started (T s t) = false -> refs (T s t) = 0 /\ mustfree (T s t) = false /\ excl (T s t) = false;
+  J9 : live s = true -> total (ths s) = 0 -> exists t, mustfree (T s t) = true
 }.
 
 Lemma T_dth s t : length (ths s) <= t -> T s t = dth.
